@@ -407,7 +407,7 @@ theorem sticky_nothing_else (fuel : Nat) (parts : List (Topic × List Nat)) (mem
             obtain ⟨k, hk, heq⟩ := List.mem_map.mp hin
             injection heq with e1 e2
             subst e1; subst e2
-            exact ⟨ht', all, hget, hk⟩
+            exact ⟨(StickyAlg.mem_isort_iff _ _).mp ht', all, hget, hk⟩
 
 open AkVerif.StickyAlg in
 /-- **every subscribed partition has exactly one owner** — for every cluster (topics and
@@ -468,7 +468,7 @@ theorem sticky_exact_cover (fuel : Nat) (parts : List (Topic × List Nat)) (memb
         have hpotm0 : (t, p) ∈ potentialOf parts m0 := by
           unfold potentialOf
           apply List.mem_flatMap.mpr
-          refine ⟨t, htm0, ?_⟩
+          refine ⟨t, (mem_isort_iff _ _).mpr htm0, ?_⟩
           simp only [hget]
           exact List.mem_map.mpr ⟨p, hp, rfl⟩
         have hpot0 : (t, p) ∈ potOf s0 m0.id := by
@@ -493,12 +493,14 @@ theorem sticky_exact_cover (fuel : Nat) (parts : List (Topic × List Nat)) (memb
                   exact ih hn.2 hin'
             exact this members hmem hm0
           rw [hfind]; exact hpotm0
-        have hp2c' : s0.p2c = (allTpsOf parts).map
+        have hp2c' : s0.p2c = (subscribedTps parts members).map
             (fun tp => (tp, (members.filter (fun m => (potentialOf parts m).contains tp)).map (·.id))) := by
           rw [hp2c]; rfl
-        have hall : (t, p) ∈ allTpsOf parts :=
-          List.mem_flatMap.mpr ⟨(t, all), ht, List.mem_map.mpr ⟨p, hp, rfl⟩⟩
-        have hkeysp2c : keysOf s0.p2c = allTpsOf parts := by
+        have hall : (t, p) ∈ subscribedTps parts members := by
+          unfold subscribedTps
+          refine List.mem_filter.mpr ⟨List.mem_flatMap.mpr ⟨(t, all), ht, List.mem_map.mpr ⟨p, hp, rfl⟩⟩, ?_⟩
+          exact List.any_eq_true.mpr ⟨m0, hm0, by simpa using htm0⟩
+        have hkeysp2c : keysOf s0.p2c = subscribedTps parts members := by
           rw [hp2c']; unfold keysOf; simp [List.map_map, Function.comp_def]
         have hkeyp2c : (t, p) ∈ keysOf s0.p2c := by rw [hkeysp2c]; exact hall
         have hcons : (consumersOf s0 (t, p)).isEmpty = false := by
@@ -507,7 +509,8 @@ theorem sticky_exact_cover (fuel : Nat) (parts : List (Topic × List Nat)) (memb
               = some ((members.filter (fun m => (potentialOf parts m).contains (t, p))).map (·.id)) := by
             apply alGet_of_mem_nodup
             · show (keysOf s0.p2c).Nodup
-              rw [hkeysp2c]; exact allTps_nodup parts hparts hps
+              rw [hkeysp2c]; unfold subscribedTps
+              exact List.Nodup.sublist List.filter_sublist (allTps_nodup parts hparts hps)
             · rw [hp2c']; exact List.mem_map.mpr ⟨(t, p), hall, rfl⟩
           rw [hg]
           simp only [Option.getD_some]
